@@ -472,6 +472,17 @@ class Interp:
         if dotted in ('math.ceil', 'math.floor') and args and isinstance(args[0], Const) and isinstance(args[0].v, (int, float)):
             import math
             return Const(getattr(math, dotted.split('.')[1])(args[0].v))
+        if dotted in ('itertools.chain', 'itertools.chain.from_iterable'):
+            seqs = args
+            if dotted.endswith('from_iterable') and args:
+                seqs = self.iterate(args[0], node) or []
+            out = []
+            for a in seqs:
+                it = self.iterate(a, node)
+                if it is None:
+                    return Unknown('chain over unknown')
+                out.extend(it)
+            return Tup(out, 'tuple')
         if dotted == 'warnings.warn':
             self.emit('warn', node=node)
             return Const(None)
